@@ -828,30 +828,54 @@ func (it *Interp) Reach(label string, c *smt.Term) {
 
 // ---------- running a job ----------
 
+// maxWorkerTerms: a worker's term table (hash-consed, never shrinks) is rebuilt from scratch once it holds this
+// many terms: every path re-executes the harness from its decision prefix, so nothing has to survive except the
+// accumulated results. Keeps long runs within memory (a thorough tier reached 40 GB without it).
+const maxWorkerTerms = 1_500_000
+
 func (w *Worker) RunJob(j job, solverBin string, shared *workList, jr *JobResult, mu *sync.Mutex, id int) {
-	ctx := smt.NewCtx()
-	sol, err := smt.NewSolver(ctx, solverBin)
-	if err != nil {
-		mu.Lock()
-		jr.Inconclusive = append(jr.Inconclusive, "cannot start solver: "+err.Error())
-		mu.Unlock()
+	local := &JobResult{Harness: jr.Harness, Reached: map[string]bool{}, Witness: map[string][]TapeEntry{}, Funcs: map[string]bool{}}
+	var sol *smt.Solver
+	var it *Interp
+	fresh := func() bool {
+		if sol != nil {
+			local.Queries += sol.Queries
+			local.SolverTime += sol.Time
+			sol.Close()
+		}
+		ctx := smt.NewCtx()
+		var err error
+		sol, err = smt.NewSolver(ctx, solverBin)
+		if err != nil {
+			mu.Lock()
+			jr.Inconclusive = append(jr.Inconclusive, "cannot start solver: "+err.Error())
+			mu.Unlock()
+			sol = nil
+			return false
+		}
+		if j.hcfg != nil && len(j.hcfg.cur.SolverOpts) > 0 {
+			sol.SetPreamble(strings.Join(j.hcfg.cur.SolverOpts, "\n") + "\n")
+		}
+		it = &Interp{C: ctx, S: sol, L: w.L, Cfg: w.Cfg,
+			globals: map[*ssa.Global]*Obj{}, pkgInit: map[*ssa.Package]int{}, fninfo: map[*ssa.Function]*fnInfo{},
+			FuncsSeen: local.Funcs}
+		it.jr = local
+		it.work = shared
+		it.hcfg = j.hcfg
+		if j.hcfg != nil && j.hcfg.cur.NoLift {
+			ctx.NoLift = true
+		}
+		it.caseN = j.caseN
+		return true
+	}
+	if !fresh() {
 		return
 	}
-	defer sol.Close()
-	if j.hcfg != nil && len(j.hcfg.cur.SolverOpts) > 0 {
-		sol.SetPreamble(strings.Join(j.hcfg.cur.SolverOpts, "\n") + "\n")
-	}
-	local := &JobResult{Harness: jr.Harness, Reached: map[string]bool{}, Witness: map[string][]TapeEntry{}, Funcs: map[string]bool{}}
-	it := &Interp{C: ctx, S: sol, L: w.L, Cfg: w.Cfg,
-		globals: map[*ssa.Global]*Obj{}, pkgInit: map[*ssa.Package]int{}, fninfo: map[*ssa.Function]*fnInfo{},
-		FuncsSeen: local.Funcs}
-	it.jr = local
-	it.work = shared
-	it.hcfg = j.hcfg
-	if j.hcfg != nil && j.hcfg.cur.NoLift {
-		ctx.NoLift = true
-	}
-	it.caseN = j.caseN
+	defer func() {
+		if sol != nil {
+			sol.Close()
+		}
+	}()
 	for {
 		if e := shared.ctl.expired(); e != 0 {
 			if e == 2 {
@@ -876,9 +900,16 @@ func (w *Worker) RunJob(j job, solverBin string, shared *workList, jr *JobResult
 			local.Inconclusive = append(local.Inconclusive, fmt.Sprintf("path budget %d exceeded", w.Cfg.MaxPaths))
 			break
 		}
+		if len(it.C.Terms) > maxWorkerTerms {
+			if !fresh() {
+				break
+			}
+		}
 	}
-	local.Queries = sol.Queries
-	local.SolverTime = sol.Time
+	if sol != nil {
+		local.Queries += sol.Queries
+		local.SolverTime += sol.Time
+	}
 	mu.Lock()
 	jr.merge(local)
 	mu.Unlock()
